@@ -787,6 +787,9 @@ func GenSchedPlan(seed uint64, idx int, prop string) *plan.SchedPlan {
 	if prop == "C11" {
 		return genBudgetPlan(p, r, uniq)
 	}
+	if prop == "C13" && idx%53 == 11 {
+		return genBigDistinct(p, r, uniq)
+	}
 	if prop == "C12" {
 		// (plans from FirstUseBase on are all hammer-shaped: the first-use phase of
 		// the check gives each of them a process of its own)
@@ -814,7 +817,7 @@ func GenSchedPlan(seed uint64, idx int, prop string) *plan.SchedPlan {
 			gens = CollGens
 		}
 		g := gens[r.Intn(len(gens))]
-		if marathon && (g == "coll:huge" || g == "bytesdoc") {
+		if marathon && (g == "coll:huge" || g == "bytesdoc" || g == "coll:names" || g == "names") {
 			g = "coll:slice" // thousands of deep fingerprints of a huge datum buy nothing
 		}
 		p.Data = append(p.Data, DatumSpec{Gen: g, Seed: r.Uint64() % 1000000})
@@ -945,6 +948,47 @@ func GenSchedPlan(seed uint64, idx int, prop string) *plan.SchedPlan {
 	return p
 }
 
+// namesObject writes a filter (or evaluator) for the big collections of records
+// with distinct names: a text operator on the name, so that one node of the
+// syntax tree sees thousands of different strings.
+func namesObject(r *plan.Rand, gen string) ObjSpec {
+	pre := []string{"web", "db", "cache", "api", "job"}[r.Intn(5)]
+	body := []string{
+		fmt.Sprintf(`y matches "^%s-"`, pre),
+		fmt.Sprintf(`y not matches "^%s-.*[05]$"`, pre),
+		fmt.Sprintf(`y matches "-%d"`, r.Range(0, 9)),
+		fmt.Sprintf(`"%s" in y`, pre),
+		fmt.Sprintf(`y contains "%d"`, r.Range(0, 99)),
+		fmt.Sprintf(`y == "%s-%04d" or y matches "7$"`, pre, r.Range(0, 1500)),
+	}[r.Intn(6)]
+	if gen == "names" {
+		body = strings.ReplaceAll(body, "y ", "x ")
+		body = strings.ReplaceAll(body, " y", " x")
+		return ObjSpec{Kind: "evaluator", Expr: fmt.Sprintf("%s items as x { %s }", []string{"any", "all"}[r.Intn(2)], body)}
+	}
+	return ObjSpec{Kind: "filter", Expr: body}
+}
+
+// genBigDistinct (C13): the same call repeated on data with more distinct
+// values than any bounded memo or table holds.
+func genBigDistinct(p *plan.SchedPlan, r *plan.Rand, uniq string) *plan.SchedPlan {
+	gen := []string{"coll:names", "coll:names", "names"}[r.Intn(3)]
+	p.Data = []DatumSpec{{Gen: gen, Seed: r.Uint64() % 1000000}, {Gen: gen, Seed: r.Uint64() % 1000000}}
+	obj := namesObject(r, gen)
+	p.Objects = []ObjSpec{obj}
+	p.Primed = []bool{false}
+	kind := "eval"
+	if obj.Kind == "filter" {
+		kind = "exec"
+	}
+	var ops []plan.SOp
+	for i, n := 0, r.Range(3, 6); i < n; i++ {
+		ops = append(ops, plan.SOp{Kind: kind, Obj: 0, Datum: []int{0, 0, 1}[r.Intn(3)]})
+	}
+	p.Tasks = [][]plan.SOp{ops}
+	return p
+}
+
 // FirstUseBase: plan indexes from here on are reserved for the first-use phase.
 const FirstUseBase = 1 << 24
 
@@ -954,7 +998,7 @@ const FirstUseBase = 1 << 24
 // callers reach at the same program point; lockstep and sync-gap schedules then
 // interleave them inside it. Half of these plans quantify over long lists.
 func genHammer(p *plan.SchedPlan, r *plan.Rand, uniq string, k int) *plan.SchedPlan {
-	gens := append(append([]string{}, DatumGens...), "longlist", "longlist", "longlist", "longlist", "coll:long", "coll:long", "coll:slice", "coll:map", "coll:array", "coll:huge")
+	gens := append(append([]string{}, DatumGens...), "longlist", "longlist", "longlist", "longlist", "coll:long", "coll:long", "coll:slice", "coll:map", "coll:array", "coll:huge", "coll:names", "coll:names", "names")
 	gen := gens[r.Intn(len(gens))]
 	nData := r.Range(1, 2)
 	for i := 0; i < nData; i++ {
@@ -974,6 +1018,9 @@ func genHammer(p *plan.SchedPlan, r *plan.Rand, uniq string, k int) *plan.SchedP
 		if e := deepChain(r, obj, p.Data[0]); e != "" {
 			obj.Expr = e
 		}
+	}
+	if (gen == "coll:names" || gen == "names") && r.Chance(0.6) {
+		obj = namesObject(r, gen)
 	}
 	p.Objects = []ObjSpec{obj}
 	p.Primed = []bool{r.Chance(0.2)}
@@ -1526,6 +1573,11 @@ func workerSchedGenExec(cfg WorkerCfg) int {
 	}
 	if cfg.K == 11 {
 		prop = "C11"
+	}
+	if cfg.From%2 == 1 && prop != "C11" {
+		// every second in-process worker is an old process (see AgeProcess)
+		AgeProcess(cfg.Seed, 1600)
+		cfg.Emit(map[string]interface{}{"type": "aged", "calls": 1600})
 	}
 	for idx := cfg.From; idx < cfg.To; idx += cfg.Stride {
 		if cfg.expired() {
